@@ -418,7 +418,10 @@ class Channel(Transformation):
             T = np.dot(other.p[0], self.p[0])
             # if one, replace with the identity
             T_arr = np.atleast_2d(T)
-            if np.allclose(T_arr, np.eye(T_arr.shape[0]), atol=_decomposition_merge_tol, rtol=0):
+            # a symbolic parameter cannot be compared with the identity
+            if not par_is_symbolic(T) and np.allclose(
+                T_arr, np.eye(T_arr.shape[0]), atol=_decomposition_merge_tol, rtol=0
+            ):
                 return None
 
             # return a copy
